@@ -195,6 +195,12 @@ impl VarFile {
                 }
                 //
                 self.write_piece_clear(free_curr, piece_size)?;
+                // the slot may be larger than needed: give its tail back.
+                if new_piece_size < piece_size {
+                    let rest_size =
+                        PieceSize::<T>::new(piece_size.as_value() - new_piece_size.as_value());
+                    self.push_free_piece_list(free_curr + new_piece_size, rest_size)?;
+                }
                 return Ok(free_curr);
             }
             free_prev = free_curr;
